@@ -19,6 +19,8 @@ import (
 type VJPCase struct {
 	P prog.Program `json:"p"`
 	G []float64    `json:"g"`
+	// Fan: how many operations consume the result before the root (weightedRoot)
+	Fan int `json:"fan,omitempty"`
 }
 
 func init() {
@@ -38,6 +40,18 @@ func genVJP(t *rapid.T, ops []string, expand bool) VJPCase {
 	}
 	if !any {
 		p.Leaves[rapid.IntRange(0, len(p.Leaves)-1).Draw(t, "forcetracked")].Tracked = true
+	}
+	// sometimes one operand of an operation that is smooth everywhere holds one constant in
+	// every element (the neutral elements 0 and 1 among them)
+	if constOK[op] && rapid.IntRange(0, 7).Draw(t, "constoperand") == 0 {
+		k := rapid.IntRange(0, len(p.Leaves)-1).Draw(t, "constwhich")
+		cv := rapid.SampledFrom([]float64{0, 1, -1, 2}).Draw(t, "constval")
+		if op == "div" && cv == 0 {
+			cv = 1
+		}
+		for i := range p.Leaves[k].Vals {
+			p.Leaves[k].Vals[i] = cv
+		}
 	}
 	in := make([]ref.T, len(p.Nodes[0].In))
 	for k, o := range p.Nodes[0].In {
@@ -62,10 +76,51 @@ func genVJP(t *rapid.T, ops []string, expand bool) VJPCase {
 			r = nr
 		}
 	}
+	// sometimes a tracked operand is itself the result of a tracked (identity) derivation
+	for i := range p.Leaves {
+		if p.Leaves[i].Tracked && rapid.IntRange(0, 3).Draw(t, "pre") == 0 {
+			p.Leaves[i].Pre = rapid.IntRange(1, prog.NPre-1).Draw(t, "prekind")
+		}
+	}
 	c := VJPCase{P: p}
-	c.G = prog.DrawValsMode(t, len(r.E), 5, "std")
+	c.G = drawWeights(t, len(r.E))
+	c.Fan = drawFan(t)
 	return c
 }
+
+// drawWeights draws an upstream weighting: mostly generic values, otherwise weightings under
+// which parts of the vector-Jacobian product vanish or cancel exactly (small integers, all
+// zeros, a single non-zero entry, an alternating +-c pattern).
+func drawWeights(t *rapid.T, n int) []float64 {
+	g := make([]float64, n)
+	switch rapid.IntRange(0, 9).Draw(t, "wmode") {
+	case 0:
+		for i := range g {
+			g[i] = float64(rapid.IntRange(-2, 2).Draw(t, "wi"))
+		}
+	case 1: // all zero
+	case 2:
+		g[rapid.IntRange(0, n-1).Draw(t, "hot")] = float64(rapid.IntRange(1, 3).Draw(t, "hotv"))
+	case 3:
+		c := float64(rapid.IntRange(1, 3).Draw(t, "alt"))
+		for i := range g {
+			g[i] = c
+			if i%2 == 1 {
+				g[i] = -c
+			}
+		}
+	default:
+		return prog.DrawValsMode(t, n, 5, "std")
+	}
+	return g
+}
+
+// constOK: operations differentiable at constant operands (no kinks, no domain limits except
+// a zero divisor, which genVJP avoids).
+var constOK = map[string]bool{"add": true, "sub": true, "mul": true, "div": true, "dot": true, "matmul": true, "concat": true,
+	"patch": true, "slice": true, "transpose": true, "reshape": true, "unsqueeze": true, "squeeze": true, "flatten": true,
+	"broadcast": true, "sumalong": true, "avgalong": true, "meanalong": true, "scale": true, "exp": true, "sin": true, "cos": true,
+	"sinh": true, "cosh": true, "tanh": true}
 
 // drawPostNode draws a structural operation applicable to a tensor of the given shape.
 func drawPostNode(t *rapid.T, shape []int, prev int) prog.Node {
@@ -143,7 +198,8 @@ func checkVJP(c VJPCase, property string) *Failure {
 		if variant == 0 {
 			w = c.G
 		}
-		lv, err := prog.RunLib(c.P)
+		lib.ResetAncestors()
+		lv, bases, err := prog.RunLibBases(c.P)
 		if err != nil {
 			return failf("%s rejected valid arguments: %v", node.Op, err)
 		}
@@ -162,8 +218,7 @@ func checkVJP(c VJPCase, property string) *Failure {
 		}
 		z := y
 		if variant == 0 {
-			gt := lib.MustNew(root.Shape, c.G, false)
-			z, err = y.Mul(gt)
+			z, err = weightedRoot(y, root.Shape, c.G, c.Fan)
 			if err != nil {
 				return failf("weighting the result failed: %v", err)
 			}
@@ -175,62 +230,94 @@ func checkVJP(c VJPCase, property string) *Failure {
 			prog.Disturbance(c.P, true)
 		}
 		for i, l := range c.P.Leaves {
-			g := lv[i].Gradient()
-			if !l.Tracked {
-				if g != nil {
-					return failf("%s: untracked operand %d received a gradient", node.Op, i)
+			holders := []tensor.Tensor{lv[i]}
+			names := []string{fmt.Sprintf("operand %d", i)}
+			if bases[i] != nil {
+				holders = append(holders, bases[i])
+				names[0] = fmt.Sprintf("operand %d (itself derived from a tracked leaf by identity derivation %d)", i, l.Pre)
+				names = append(names, fmt.Sprintf("the leaf behind operand %d (identity derivation %d)", i, l.Pre))
+			}
+			for h, holder := range holders {
+				who := names[h]
+				g := holder.Gradient()
+				if !l.Tracked {
+					if g != nil {
+						return failf("%s: untracked %s received a gradient", node.Op, who)
+					}
+					continue
 				}
-				continue
-			}
-			if g == nil {
-				return failf("%s: tracked operand %d received no gradient (weighted=%v)", node.Op, i, variant == 0)
-			}
-			gs, gv, err := lib.Read(g)
-			if err != nil {
-				return failf("%s: gradient of operand %d unreadable: %v", node.Op, i, err)
-			}
-			if !ref.EqShape(gs, l.Shape) {
-				return failf("%s: gradient of operand %d has shape %v, operand shape %v (weighted=%v)", node.Op, i, gs, l.Shape, variant == 0)
-			}
-			want, wsc := prog.Adjoint(root, w, slot[i], len(l.Vals))
-			bad := -1
-			for k := range gv {
-				if !closeTo(gv[k], want[k], wsc[k]) {
-					bad = k
-					break
+				if g == nil {
+					return failf("%s: tracked %s received no gradient (weighted=%v)", node.Op, who, variant == 0)
 				}
-			}
-			if bad < 0 {
-				continue
-			}
-			// known finding D2: the gradient through an expansion is the mean, not the sum
-			if evid.MatcherOpen(property, "bcast_avg") && allFinite(gv) {
-				if avgVals == nil {
-					avgVals, avgSlot, _, _ = prog.RunRef(c.P, seed, true)
+				gs, gv, err := lib.Read(g)
+				if err != nil {
+					return failf("%s: gradient of %s unreadable: %v", node.Op, who, err)
 				}
-				aw, asc := prog.Adjoint(avgVals[last], w, avgSlot[i], len(l.Vals))
-				match := true
+				if !ref.EqShape(gs, l.Shape) {
+					return failf("%s: gradient of %s has shape %v, operand shape %v (weighted=%v)", node.Op, who, gs, l.Shape, variant == 0)
+				}
+				want, wsc := prog.Adjoint(root, w, slot[i], len(l.Vals))
+				bad := -1
 				for k := range gv {
-					if !closeTo(gv[k], aw[k], asc[k]) {
-						match = false
+					if !closeTo(gv[k], want[k], wsc[k]) {
+						bad = k
 						break
 					}
 				}
-				if match {
-					evid.Known("D2-"+property, map[string]any{"case": c, "operand": i, "got": gv, "sum_over_copies": want})
+				if bad < 0 {
 					continue
 				}
+				// known finding D2: the gradient through an expansion is the mean, not the sum
+				if evid.MatcherOpen(property, "bcast_avg") && allFinite(gv) {
+					if avgVals == nil {
+						avgVals, avgSlot, _, _ = prog.RunRef(c.P, seed, true)
+					}
+					aw, asc := prog.Adjoint(avgVals[last], w, avgSlot[i], len(l.Vals))
+					match := true
+					for k := range gv {
+						if !closeTo(gv[k], aw[k], asc[k]) {
+							match = false
+							break
+						}
+					}
+					if match {
+						evid.Known("D2-"+property, map[string]any{"case": c, "operand": i, "got": gv, "sum_over_copies": want})
+						continue
+					}
+				}
+				if math.IsNaN(gv[bad]) || math.IsInf(gv[bad], 0) {
+					return failf("%s: gradient of %s is not finite: [%d] = %v, vector-Jacobian product = %v (weighted=%v)", node.Op, who, bad, gv[bad], want[bad], variant == 0)
+				}
+				return failf("%s: gradient of %s [%d] = %v, vector-Jacobian product = %v (weighted=%v)", node.Op, who, bad, gv[bad], want[bad], variant == 0)
 			}
-			if math.IsNaN(gv[bad]) || math.IsInf(gv[bad], 0) {
-				return failf("%s: gradient of operand %d is not finite: [%d] = %v, vector-Jacobian product = %v (weighted=%v)", node.Op, i, bad, gv[bad], want[bad], variant == 0)
-			}
-			return failf("%s: gradient of operand %d [%d] = %v, vector-Jacobian product = %v (weighted=%v)", node.Op, i, bad, gv[bad], want[bad], variant == 0)
+		}
+		if err := lib.CheckAncestors(); err != nil {
+			return failf("%s: after the call and its back-propagation, %v", node.Op, err)
 		}
 	}
 	evid.Eval()
 	evid.Class(property + ".op=" + node.Op)
 	if len(c.P.Nodes) > 1 {
 		evid.Class(property + ".followed_by_structural_ops")
+	}
+	for _, l := range c.P.Leaves {
+		if l.Tracked && l.Pre > 0 {
+			evid.Class(property + ".operand_is_a_tracked_intermediate")
+			break
+		}
+	}
+	if c.Fan > 0 {
+		evid.Class(property + ".result_has_several_consumers")
+	}
+	zero, cancel := true, 0.0
+	for _, g := range c.G {
+		zero = zero && g == 0
+		cancel += g
+	}
+	if zero {
+		evid.Class(property + ".all_zero_weighting")
+	} else if cancel == 0 {
+		evid.Class(property + ".weighting_sums_to_zero")
 	}
 	classifyVJP(c, property, opResult)
 	return nil
